@@ -221,9 +221,12 @@ def check(col: Collector, tier: str):
     # R4 bool + else raises
     b = branches.get("bool")
     if b is not None:
-        v = resolve_name(fn, b.args[0])
-        ok = isinstance(v, ast.IfExp) and const_str(v.body) == "true" and const_str(v.orelse) == "false" and src(v.test) in ("value", "node.value")
-        col.add("C18.R4", vc.short, "bool-renders-true/false", ok, f"bool constant renders {src(v)}", vc.loc)
+        from sa.props._tr import conditional_defs
+        arms = [(const_str(v_), gs_) for v_, gs_ in conditional_defs(fn, b.args[0])]
+        vt = {t_ for _, gs_ in arms for t_, _tr in gs_ if t_ in ("value", "node.value")}
+        ok = len(arms) == 2 and len(vt) == 1 and sorted((a_, (next(iter(vt)), True) in gs_) for a_, gs_ in arms) == [("false", False), ("true", True)] \
+            and all((next(iter(vt)), a_ == "true") in gs_ for a_, gs_ in arms)
+        col.add("C18.R4", vc.short, "bool-renders-true/false", ok, f"bool constant renders {[(a_, sorted(gs_)) for a_, gs_ in arms]}", vc.loc)
     paths = enumerate_paths(fn)
     unhandled = [p for p in paths if p.status != "raise" and not any(e.kind == "call" and call_name(e.node) == "set_rep" for e in p.events)]
     if branches:
@@ -320,20 +323,17 @@ def _renders_exactly(fn):
 
 
 def _parenthesises_negatives(fn) -> bool:
-    for r in walk_no_nested(fn):
-        if isinstance(r, ast.Return) and isinstance(r.value, ast.IfExp):
-            t, b, o = r.value.test, r.value.body, r.value.orelse
-            s = src(t).replace(" ", "")
-            p0 = fn.args.args[0].arg
-            neg_branch = None
-            if s in (f"{p0}>=0", f"0<={p0}"):
-                neg_branch = o
-            elif s in (f"{p0}<0", f"0>{p0}"):
-                neg_branch = b
-            if neg_branch is not None:
-                sh = shape(parts(fn, neg_branch))
-                return len(sh) == 3 and sh[0] == "(" and sh[2] == ")"
-    return False
+    """every value returned for a negative number (under `n < 0`, however the test is spelled) is ( ... )"""
+    from sa.core.paths import outcomes
+    p0 = fn.args.args[0].arg
+    neg = [o for o in outcomes(fn) if o.kind == "return" and (f"{p0} < 0", True) in o.cguards]
+    if not neg:
+        return False
+    for o in neg:
+        sh = shape(parts(fn, o.value))
+        if not (len(sh) == 3 and sh[0] == "(" and sh[2] == ")"):
+            return False
+    return True
 
 
 def check_substitution(col: Collector, repo: Repo, rule: str):
